@@ -66,10 +66,13 @@ Definition continues (r : outcome) : bool := match r with ROk _ | RCrash _ => tr
 Definition dump_expect (e : expect) : val :=
   match e with EList l => VL [VI 0; ofNats l] | ERaise k => VL [VI 1; VI k] | ENoClaim => VL [VI 2] end.
 
-(* one step: (admissible outcome delta) *)
+(* one step: (admissible outcome delta [normalize-conforms]) *)
 Definition obs_step (h : heap) (o : op) : heap * bool * val :=
   let (h1, r) := step h o in
-  (h1, continues r, VL [ofB (adm_op h o); dump_outcome r; VL (delta_from 0 h h1)]).
+  (h1, continues r,
+   VL ([ofB (adm_op h o); dump_outcome r; VL (delta_from 0 h h1)] ++
+       (* M5 checked on the spot: the tree below p is now the normalized tree *)
+       match o with ONormalize p => if adm_op h o then [ofB (normalize_conforms h h1 p)] else [] | _ => [] end)).
 
 Fixpoint obs_run (h : heap) (ops : list op) : heap * bool * list val :=
   match ops with
